@@ -175,6 +175,52 @@ CHECKS = {
         technique="TLC trace validation of batch and chained real runs over a TLC-enumerated scenario space + differential comparison",
         engine="tlc-gen+trace",
     ),
+    "C08": dict(
+        category="model_checking",
+        text="ExprRewrite.tla transcribes the boolean folding of combine-startswith-endswith/-isinstance-issubclass and the operator "
+        "table of invert-boolean-check over an expression algebra with a three-valued evaluator (value or TypeError, short-circuit "
+        "semantics); MC_ExprRewrite decides Eval(Rewrite(e)) = Eval(e) for all expressions of depth <= 2 (44k) under all assignments "
+        "for the behaviour-preserving rules, and refutes the pinned ones; conformance: every enumerated expression is run through the "
+        "real codemods, parsed back into the algebra and compared with the transcription, and what the code produced is judged by the "
+        "same evaluator (Eval_Expr.tla). The other refactoring codemods are observed: seed programs run closed before and after the "
+        "rewrite in an isolated interpreter (stdout, exception type, exit status).",
+        design_ref="DESIGN.md §5 C08",
+        note="Trusted: TLC, harness/expr.py (rendering / parsing between Python and the algebra), the execution sandbox. Four known "
+        "findings (behaviour pinned by the repository's own tests).",
+        technique="TLC model checking of transcribed rewrite rules + spec-to-code conformance replay; differential execution for the rest",
+        engine="tlc-gen+trace",
+    ),
+    "C01": dict(
+        category="exploration",
+        text="Variants.tla enumerates the feature vectors (nesting / scope, layout and line endings, multiplicity, import placement); "
+        "for every registered find-and-fix codemod the vendored seeds are varied accordingly (one project per codemod), SAST codemods run "
+        "on their own seeds and findings, sequences come from ProgramSpace; the observation 'compiled/parsed before => compiles/parses "
+        "after' is computed by CPython for every FileEnd event and monitored by Trace_Run on every trace.",
+        design_ref="DESIGN.md §5 C01, §6",
+        note="The predicate is CPython's compile()/ast.parse(), trusted; TLA+ contributes the enumeration and the monitor only. Programs "
+        "outside seeds x variations are not covered.",
+        technique="TLC-enumerated program variants run through the code; CPython oracle monitored by TLC trace validation",
+        engine="tlc-gen+trace",
+    ),
+    "C02": dict(
+        category="exploration",
+        text="Same scenario space as C01; the observation unresolved(after) subset of unresolved(before) (scope-aware, symtable + builtins) "
+        "is computed for every FileEnd event and monitored by Trace_Run.",
+        design_ref="DESIGN.md §5 C02, §6",
+        note="The predicate is computed by CPython's symtable, trusted; files with star imports are not judged.",
+        technique="TLC-enumerated program variants run through the code; symtable oracle monitored by TLC trace validation",
+        engine="tlc-gen+trace",
+    ),
+    "C07": dict(
+        category="exploration",
+        text="For every codemod the vendored seeds under the Variants.tla feature vectors (SAST: with the repository's findings, result "
+        "files kept) are run twice with the same arguments; Trace_Run validates both traces and, on the second, the `frozen` "
+        "expectation: no FileEnd reports a change, no file moves.",
+        design_ref="DESIGN.md §5 C07",
+        note="Programs outside seeds x variations are not covered. One known finding (flask-json-response-type with re-bound names).",
+        technique="TLC-enumerated program variants run twice through the code; TLC trace validation of the second run",
+        engine="tlc-gen+trace",
+    ),
 }
 
 NOT_APPLICABLE: list[dict] = []
